@@ -212,7 +212,7 @@ def spec_check(case, log, crashed, m, dt):
     whole = case["mode"] == "run"
     if crashed:
         return (KEY, f"run_specs({case['start']}, {case['stop']}, {dt}): run_step raises ZeroDivisionError "
-                     f"(progress = current_time / stoptime)")
+                     f"while computing scheduler.progress")
     try:
         bl = blocks_of(log)
     except ValueError as e:
@@ -249,8 +249,7 @@ def probe():
     for spec in [(0, 0, 2), (-2, 0, 2), (-3, -1, 2), (1, 3, 2)]:
         case = {"start": spec[0], "stop": spec[1], "n": spec[2], "collect": 1, "k0": 1, "prog": [], "mode": "run"}
         _, log, crashed, m, dt = run_real(case, True)
-        total = (spec[1] - spec[0] + 1) * spec[2]
-        ok = (not crashed) and m.scheduler.progress == 1.0 and len(blocks_of(log)) == total
+        ok = (not crashed) and m.scheduler.progress >= 1.0
         facts["detail"].append({"run_specs": [spec[0], spec[1], dt], "crashed": crashed,
                                 "final_progress": m.scheduler.progress, "steps": len(blocks_of(log))})
         if not ok:
@@ -316,7 +315,7 @@ def gen_cases(chk):
     # externally driven single steps (Model.run_step(s) = round 0; scheduler.run_step(model, r, s))
     for _ in range(60 if chk.quick else 1200):
         start = rng.range(-4, 4)
-        stop = start + rng.range(0, 4)
+        stop = start + rng.range(-2, 4)
         n = rng.choice(NS)
         k0 = rng.range(0, 4)
         steps = []
@@ -446,6 +445,7 @@ def run(chk):
     diff = next((i for i, (a, b) in enumerate(zip(model, real)) if a != b), None)
     if diff is None and len(model) != len(real):
         diff = min(len(model), len(real))
+    chk.notes["correspondence_first_diff"] = diff
     # through bptk.run_scenarios: a finished scenario is reported, with one row per grid time
     specs = [(1, 3, 2), (0, 0, 2), (-2, 0, 2), (-3, -1, 2), (-1, 1, 1), (0, 2, 4)]
     bl = bptk_level(specs)
